@@ -18,6 +18,7 @@ C01_DECL(msgpack) C01_DECL(json) C01_DECL(xml)
 std::vector<c01::Entry> c01_tab_csv_g00(); std::vector<c01::Entry> c01_tab_csv_g01(); std::vector<c01::Entry> c01_tab_csv_g02();
 void c01_trees(bsx::Ctx& c, int arch);      // c01_trees.cpp
 int c01_tree_count();
+void c01_long(bsx::Ctx& c, int arch, bool thorough);   // c01_long.cpp
 
 using c01::Entry;
 static std::vector<Entry> table(int arch) {
@@ -32,9 +33,10 @@ static std::vector<Entry> table(int arch) {
 
 static void body(bsx::Ctx& c) {
 	static std::vector<Entry> T[4] = {table(0), table(1), table(2), table(3)};
-	const int scen = c.choose(2, "scenario");   // 0 = typed catalogue, 1 = shaped trees
+	const int scen = c.choose(3, "scenario");   // 0 = typed catalogue, 1 = shaped trees, 2 = long documents (chunk boundary alignments)
 	const int arch = c.choose(4, "archive");
 	if (scen == 1) { c01_trees(c, arch); return; }
+	if (scen == 2) { c01_long(c, arch, c01::thorough()); return; }
 	const auto& tab = T[arch];
 	const int ei = c.choose(static_cast<int>(tab.size()), "type");
 	const Entry& e = tab[static_cast<size_t>(ei)];
